@@ -220,6 +220,10 @@ impl World {
         }
         for (i, md) in models.iter().enumerate() {
             let s = self.bus.sign(i);
+            if s.address() != md.address {
+                self.cx.fail("C13/address-changed", format!("after {}: the sign at position {i} reports address {:#06x}, it was created as {:#06x}", show(m), s.address().0, md.address.0));
+                return;
+            }
             if s.state() != md.state {
                 self.cx.fail(
                     "C13/state-mismatch",
